@@ -151,7 +151,10 @@ class SshSoftwareVersionParsedBase(SshSoftwareVersionBase):
             raise InvalidType()
 
         if parser.unparsed_length > 0 and version_separator is not None:
-            parser.parse_separator(version_separator)
+            try:
+                parser.parse_separator(version_separator, 1, 1)
+            except InvalidValue as e:
+                six.raise_from(InvalidType(), e)
             parser.parse_string_by_length('version')
             version = parser['version']
         else:
